@@ -152,11 +152,19 @@ class HarnessAbort(BaseException):
 
 RUN_TAPE_BUDGET = 30_000
 RETRY_FACTOR = 15        # a case that exhausts the budget is run once more with this many times the budget before it is called ABORT
-RUNAWAYS = [0]           # retries that *still* did not finish: after three of them the implementation is taken to be running away and
+RUNAWAY_LIMIT = 2
+RUNAWAYS = [0]           # retries that *still* did not finish: after RUNAWAY_LIMIT of them the implementation is taken to be running away and
                          # further budget-exhausting cases are called ABORT at once (keeps a check on a broken tree within minutes)
 LAST = {}              # observations of the most recent auth_impl call (tapes handed to run_tape)
 CASE_SECONDS = 6.0          # generous: a loaded machine must never turn a slow case into an ABORT (the call budget is the deterministic bound)
 
+
+def case_seconds(factor):
+    """wall-clock cap of one case: generous while the implementation has not been seen running away (so a
+    loaded machine never turns a slow case into an ABORT), short once two retries with the enlarged budget
+    have confirmed a runaway implementation (keeps a check on a broken tree within minutes)"""
+    if RUNAWAYS[0] >= RUNAWAY_LIMIT: return 1.5
+    return CASE_SECONDS if factor == 1 else 30.0
 
 class Capture:
     """Wraps functions.run_tape to capture the (tape, stack, cache) of top-level runs."""
@@ -170,7 +178,7 @@ class Capture:
         orig = self.orig
         cap.calls = 0
         import time as _t
-        cap.deadline = _t.time() + CASE_SECONDS * cap.factor
+        cap.deadline = _t.time() + case_seconds(cap.factor)
         budget = RUN_TAPE_BUDGET * cap.factor
         def run_tape(tape, stack, cache, additional_flags={}):
             if cap.depth == 0:
@@ -256,7 +264,7 @@ def render(status, stack, cache, log, cnt, rand):
 
 def run_impl(cfg: Cfg, cache_in: dict, script: bytes) -> str:
     o = _run_impl(cfg, cache_in, script, 1)
-    if o.startswith('ABORT') and RUNAWAYS[0] < 3:
+    if o.startswith('ABORT') and RUNAWAYS[0] < RUNAWAY_LIMIT:
         o = _run_impl(cfg, cache_in, script, RETRY_FACTOR)      # legitimately heavy (but terminating) scripts exist: give them room once
         if o.startswith('ABORT'): RUNAWAYS[0] += 1
     return o
@@ -286,7 +294,7 @@ def _run_impl(cfg: Cfg, cache_in: dict, script: bytes, factor: int) -> str:
 
 def auth_impl(cfg: Cfg, cache_in: dict, scripts) -> str:
     o = _auth_impl(cfg, cache_in, scripts, 1)
-    if o.startswith('RAISED:HarnessAbort') and RUNAWAYS[0] < 3:
+    if o.startswith('RAISED:HarnessAbort') and RUNAWAYS[0] < RUNAWAY_LIMIT:
         o = _auth_impl(cfg, cache_in, scripts, RETRY_FACTOR)
         if o.startswith('RAISED:HarnessAbort'): RUNAWAYS[0] += 1
     return o
